@@ -32,7 +32,7 @@ func (d *dir) ReadDir(n int) ([]hackpadfs.DirEntry, error) {
 	if n > 0 && d.offset == len(entries) {
 		return nil, io.EOF
 	}
-	if n <= 0 || d.offset+n > len(entries) {
+	if n <= 0 || n > len(entries)-d.offset { // not d.offset+n: that overflows for huge n
 		// return the entries that remain (everything for a fresh handle) and move to the end
 		entries = entries[d.offset:]
 		d.offset += len(entries)
